@@ -13,6 +13,7 @@ import (
 
 	"github.com/consensys/gnark/constraint/solver"
 	_ "github.com/consensys/gnark/std/math/bits"
+	_ "github.com/consensys/gnark/std/math/bitslice"
 	_ "github.com/consensys/gnark/std/math/cmp"
 	_ "github.com/consensys/gnark/std/selector"
 )
@@ -52,6 +53,7 @@ func hintsMode(out string, seed int64) {
 	}{
 		{"solver.InvZeroHint", 1, 1},
 		{"bits.nBits", 1, 7}, {"bits.nTrits", 1, 5}, {"bits.ithBit", 2, 1},
+		{"bitslice.partitionHint", 2, 2},
 		{"cmp.isLessOutputHint", 2, 1}, {"cmp.minOutputHint", 2, 1},
 		{"selector.muxIndicators", 1, 6},
 		{"selector.stepOutput", 3, 5}, {"selector.mapIndicators", 3, 2}, {"selector.mapIndicators", 4, 3}, {"selector.mapIndicators", 5, 4},
